@@ -157,8 +157,13 @@ CHECKS = {
             "holds the little-endian int64 `target - slot`, a union reference the member index in the next word; null = -2^63, member "
             "index -1), C05_node_slots (fields on 8-byte slots, size a whole number of slots), C05_new_node_bytes; that these bytes "
             "DEcode to the referent is C08_alias / C08_union_member / C08_null.",
-            "Partial: reference slots inside dynamic structs and arrays (their position in the enclosing layout) are checked by the "
-            "Python decoder and the executable model, not proved.",
+            "Where reference slots sit inside dynamic structs and arrays: `toLayR` maps EVERY type to a layout-model type (a reference "
+            "slot = an opaque 8-byte word, a union reference = 16 bytes), so all layout theorems apply; C05_sizes_with_references "
+            "(class-level sizes agree for every type), C05_toLayR_extends_toLay; on every reference-bearing case the proof model's "
+            "writer (reference words borrowed from the bytes) must reproduce the object's bytes exactly and its reader every "
+            "non-reference leaf.",
+            "Partial: that the borrowed reference words DEcode to the referents is the slot-level theorem (C08) applied at the slot's "
+            "address, tied by the heap and rg components, not a single end-to-end theorem over the general grammar.",
             "7/C05"),
     "C06": (LAY + "oracle: _from_buffer view vs constructor handle (value, size, shape, strides; writes through either)",
             "Kernel-checked theorems: C06_view_value (a view, which re-reads every cached quantity from the bytes, reads the value the "
